@@ -42,7 +42,9 @@ structure St where
 def init (ps : List String) : Option St :=
   match ps with
   | kind :: _ =>
-    if ["flat", "hnsw", "ivf", "pq", "ivfpq", "bm25", "meta", "hybrid", "store"].contains kind
+    -- "hnswfill": an HNSW index that never holds more than 2M+1 vertices and sees no removal — every
+    -- neighbour list keeps everything (C12: hnsw_small_exact), so completeness (V1) IS judged
+    if ["flat", "hnsw", "hnswfill", "ivf", "pq", "ivfpq", "bm25", "meta", "hybrid", "store"].contains kind
     then some { kind := kind } else none
   | _ => none
 
@@ -116,6 +118,11 @@ def judgeErrors (kind : String) (rs : List Rec) : List String × Nat :=
         let removalBegun := rs.any fun m => m.op == "remove" && m.out == "ok" && m.id == r.id &&
           (m.g != r.g || m.inv != r.inv) && decide (m.inv < r.resp)
         if addedBefore && !removalBegun then fail "remove-failed-on-a-document-that-was-live-throughout" else acc
+    | "bad" =>
+      -- a call that fails sequentially (zero vector under cosine, wrong dimension, untrained index,
+      -- unknown node id, no query, wrong operand type, closed store): it must fail — and leave the
+      -- index usable, which the rest of the history (and the watchdog) shows
+      if r.out == "ok" then fail s!"call-that-fails-sequentially-succeeded ({r.agg})" else acc
     | "close" =>
       -- a Close may only fail because another Close began before it ended
       if r.out == "ok" || (kind == "store" && rs.any fun c => c.op == "close" && (c.g != r.g || c.inv != r.inv) && decide (c.inv < r.resp))
@@ -236,6 +243,11 @@ def op (st : St) (toks : List String) : St × String :=
                              res := hits.map (·.1), qs := qs, scored := scored, agg := agg } :: st.recs }, "ok")
       | _, _ => ({ st with bad := some "search line" }, "BADOP search line")
     | _, _, _ => ({ st with bad := some "search" }, "BADOP search")
+  | ["bad", g, inv, resp, what] =>
+    match g.toNat?, inv.toNat?, resp.toNat? with
+    | some g, some inv, some resp =>
+      ({ st with recs := { g := g, op := "bad", inv := inv, resp := resp, out := outc, agg := what } :: st.recs }, "ok")
+    | _, _, _ => ({ st with bad := some "bad" }, "BADOP bad")
   | name :: g :: id :: inv :: resp :: rest =>
     match g.toNat?, id.toNat?, inv.toNat?, resp.toNat? with
     | some g, some id, some inv, some resp =>
